@@ -38,7 +38,8 @@ CHECKS.update({
     ),
     "C03": dict(
         text="Lean 4 theorems on the materialisation model: which transformation each mode requests per operand (static range / dynamic range / weight only), non-float operands always receive NO_QUANTIZE (nonfloat_never_quantized), tensor type produced per bit width; combined with the wiring theorems of C01/C02. The materialisation and the whole pipeline are compared bit-exactly with the code; an independent per-operand dtype oracle runs on every generated case.",
-        note="per-step typing is proved (QProps/C03b: after QUANTIZE_TENSOR / ADD_QUANTIZE / ADD_DEQUANTIZE the retyped or new tensor has exactly the type and parameters of the request, exactly one QUANTIZE/DEQUANTIZE op is inserted, exactly the listed consumers are rewired, everything else is unchanged); the composition over all steps into 'operand dtype in the output graph = table(mode)' is established per case by oracle + correspondence",
+        note="proved for the whole performer (QProps/C03c: addQuant_wired / addDequant_wired / quantTensor_typed): for every instruction list that is consistent, chain-free and names each tensor in one entry, after transformGraph every listed consumer of an ADD_QUANTIZE instruction reads, in every slot where the original operator read the tensor, a tensor that stands for it (Skeleton.root), has the type dtypeOf(p) and carries p; ADD_DEQUANTIZE consumers read float32; the retyped tensor itself has the requested type; each extra hypothesis is shown necessary by a kernel-checked counterexample. Per-step typing is QProps/C03b. What remains oracle-level is the link from the recipe's mode to the instruction list, i.e. the composition with materialisation (xfs_* theorems + GenInsts) into one statement over quantize()",
+
         design="§6 C03",
     ),
     "C04": dict(
